@@ -149,7 +149,8 @@ func (c *CBC) Decrypt(header recordlayer.Header, in []byte) ([]byte, error) {
 	}
 
 	macSize := mac.Size()
-	if len(body) < macSize {
+	if len(body) < macSize+paddingLen {
+		// padding (even if well formed) may not reach into the MAC
 		return nil, dtlserrors.ErrInvalidMAC
 	}
 
